@@ -30,7 +30,8 @@ Emails == { <<"alice", "at">> \o EX,
             <<"alice", "at">> \o EX \o <<"dot", "evil", "dot", "org">>,     \* example.com.evil.org
             <<"alice", "at", "evil", "dot", "org", "at">> \o EX,           \* two @, last domain example.com
             <<"alice", "at">> \o EX \o <<"at", "evil", "dot", "org">>,      \* two @, last domain evil.org
-            <<"bob", "at", "other", "dot", "org">> }
+            <<"bob", "at", "other", "dot", "org">>,
+            <<"alice">> }                                                  \* an identity that is no address at all (a subject used as e-mail)
 
 DomainRuleSets == { {}, {EX}, {<<"dot">> \o EX}, {<<"star", "dot">> \o EX}, {<<"star">>}, {<<"Example", "dot", "COM">>},
                     {EX, <<"other", "dot", "org">>}, {<<"evil", "dot", "org">>} }
@@ -92,11 +93,16 @@ Queries == { <<>>,
              <<P("allowed_groups", <<<<"g4">>>>), P("allowed_emails", <<A_EX>>), P("allowed_email_domains", <<EX>>)>> }
 
 \* ---- cases -------------------------------------------------------------------------------
-Mk(k, e, gs, rs, f, al, q, st) == [kind |-> k, email |-> e, groups |-> gs, rules |-> rs, file |-> f, allowed |-> al, query |-> q, store |-> st]
+\* pe: an htpasswd file is configured together with prefer-email-to-user (htpasswd users then carry their NAME in the e-mail field and
+\* stay exempt; identities from the provider do not become exempt by looking like one)
+Mk2(k, e, gs, rs, f, al, q, st, pe) == [kind |-> k, email |-> e, groups |-> gs, rules |-> rs, file |-> f, allowed |-> al, query |-> q, store |-> st, pe |-> pe]
+Mk(k, e, gs, rs, f, al, q, st) == Mk2(k, e, gs, rs, f, al, q, st, FALSE)
 Kinds == {"login", "request", "authonly", "htpasswd"}
 ValidCfg(c) == c.rules # {} \/ c.file.on \/ c.kind = "htpasswd"
 InScope(c) ==
     /\ ValidCfg(c)
+    /\ (c.pe => c.kind \in {"request", "authonly"} /\ c.rules = {EX} /\ c.file = NoFile /\ c.allowed = {} /\ c.store = "cookie" /\ c.query = <<>>
+                 /\ c.groups = <<"g1">>)
     /\ (c.kind \notin {"authonly", "htpasswd"} => c.query = <<>>)
     /\ (c.kind = "htpasswd" /\ c.query # <<>> => c.rules = {EX} /\ c.allowed = {})
     /\ (\E i \in 1..Len(c.groups) : c.groups[i] = "nil") => c.kind = "authonly"
@@ -127,7 +133,7 @@ FileChangeRec(v1, v2, emptyStyle, style) ==
 
 VARIABLE c
 Init == \E k \in Kinds, e \in Emails, gs \in GroupLists, rs \in DomainRuleSets, f \in Files, al \in AllowedGroups, q \in Queries,
-           st \in {"cookie", "redis"} : c = Mk(k, e, gs, rs, f, al, q, st) /\ InScope(c)
+           st \in {"cookie", "redis"}, pe \in BOOLEAN : c = Mk2(k, e, gs, rs, f, al, q, st, pe) /\ InScope(c)
 Next == UNCHANGED c
 
 Allowed(d) == CASE d.kind = "login"    -> Req_LoginAllowed(d.email, d.groups, d.rules, d.file, d.allowed)
